@@ -101,8 +101,8 @@ theorem addDefaults_ext {p1 p2 : List (String × (Node × Nat))} (h : ∀ q, get
     intro e _
     rw [h e.1]
 
-theorem steps_ext (all : Bool) (deps : Node → List String) {a1 a2 : List (String × Node)} (modifier : List (String × Node))
-    (h : ∀ q, get a1 q = get a2 q) : steps all deps a1 modifier = steps all deps a2 modifier := by
+theorem steps_ext (deps : Node → List String) {a1 a2 : List (String × Node)} (modifier : List (String × Node))
+    (h : ∀ q, get a1 q = get a2 q) : steps deps a1 modifier = steps deps a2 modifier := by
   funext n
   simp only [steps]
   congr 1
@@ -286,7 +286,7 @@ theorem resolve_perm (C : ClassInfo) {S1 S2 : List Spec} (hperm : S1.Perm S2)
       have hstp : stepsOf C S1 a = stepsOf C S2 b := by
         unfold stepsOf
         rw [depsOf_perm C hperm ok1.names, hm]
-        exact steps_ext _ _ _ hg
+        exact steps_ext _ _ hg
       have hc1 := nodes_closed ok1
       have hc2 := nodes_closed ok2
       have hgood : Good (stepsOf C S1 a) a.nodes ↔ Good (stepsOf C S2 b) b.nodes := by
